@@ -173,7 +173,7 @@ func init() {
 		}
 		spec := &mc.Spec{
 			Level: "exploration",
-			Rule: "every descriptor list of length ≤ maxLen over {close-marker, caller fds 0,1,2, four reserved low fds, two high fds} × ExecFile ∈ {none, a low number, a high number} × " +
+			Rule: "every descriptor list of length ≤ maxLen over {close-marker, caller fds 0,1,2, four reserved low fds, two high fds} × ExecFile ∈ {none, a low number, a high number, exactly the first scratch number the launcher will use} × " +
 				"placement of the internal socketpair ∈ {two lowest reserved numbers freed so that it lands inside 0..n, just above the reserved block} × {vfork, non-vfork (sync callback)}; " +
 				"each configuration is started twice from one Runner value; the program reports its whole descriptor table; plus container.Execve with Files/ExecFile lists; plus containers built while the building process holds one or two inheritable descriptors (every 1- and 2-subset of six numbers chosen for their position in numeric and in name order), programs run twice in each; plus 'concurrent launch': ten operations A (launches in every mode, a failing launch, a namespace-runner run, container build+destroy, host side of Execve and Open, memfd copy + pipe collector) run on a thread that is stopped with ptrace at EVERY system-call boundary, and at each boundary a complete launch B from another goroutine must produce a program with exactly its own descriptors (all interleavings of A with one atomic B). " +
 				"non-trivial: the list is not the identity mapping 0..n-1; distinct = (list, exec, gap, vfork, observed table shape)",
@@ -209,7 +209,7 @@ func init() {
 			}
 			L := c06L
 			gap := x.Choose(2, "gap") // 0: socketpair lands above the reserved block; 1: the two lowest reserved numbers are freed for it
-			execSel := x.Choose(3, "exec")
+			execSel := x.Choose(4, "exec") // 3: the executable sits exactly on the first scratch number the launcher will use
 			vfork := x.Choose(2, "nonvfork") == 0
 			low := L.low
 			var freed []int
@@ -248,7 +248,7 @@ func init() {
 			x.Note("list", fmtList(list))
 			x.OnHang("C06/launch-hangs", fmt.Sprintf("launch with list %s exec=%d gap=%d vfork=%v did not return within the horizon", fmtList(list), execSel, gap, vfork))
 			x.Note("gap", gap)
-			x.Note("exec", []string{"none", "low", "high"}[execSel])
+			x.Note("exec", []string{"none", "low", "high", "first-scratch-number"}[execSel])
 			x.Note("vfork", vfork)
 
 			if x.Dry() {
@@ -263,6 +263,47 @@ func init() {
 				if err := placeFile(L.exePath, execLow, unix.O_RDONLY); err != nil {
 					x.Failf("C06/harness", "place exec: %v", err)
 				}
+			}
+			execScratch := 0
+			if execSel == 3 {
+				// the launcher's scratch numbers start above the list's length and above its largest entry
+				execScratch = n
+				for _, v := range list {
+					if v != c06marker && int(v)+1 > execScratch {
+						execScratch = int(v) + 1
+					}
+				}
+				path, mine := L.files[execScratch]
+				inList := false
+				for _, v := range list {
+					if v != c06marker && int(v) == execScratch {
+						inList = true
+					}
+				}
+				for _, fd := range freed {
+					if fd == execScratch {
+						mine = false
+					}
+				}
+				if execScratch < 3 || inList || (!mine && !fdFree(execScratch)) {
+					x.Outcome("n/a:first-scratch-number-not-available")
+					for _, fd := range freed {
+						placeFile(L.files[fd], fd, unix.O_RDWR)
+					}
+					return
+				}
+				if mine {
+					unix.Close(execScratch) // one of the reserved test files: it gives its number to the executable for this run
+				}
+				if err := placeFile(L.exePath, execScratch, unix.O_RDONLY); err != nil {
+					x.Failf("C06/harness", "place exec: %v", err)
+				}
+				defer func() {
+					unix.Close(execScratch)
+					if mine {
+						placeFile(path, execScratch, unix.O_RDWR)
+					}
+				}()
 			}
 			defer func() {
 				for _, fd := range freed {
@@ -298,6 +339,8 @@ func init() {
 				r.ExecFile = uintptr(execLow)
 			case 2:
 				r.ExecFile = uintptr(L.execHi)
+			case 3:
+				r.ExecFile = uintptr(execScratch)
 			}
 			if !vfork {
 				r.SyncFunc = func(int) error { return nil }
